@@ -212,7 +212,7 @@ pub fn build(ctx: &Ctx) -> Vec<Box<dyn Arm>> {
     let t = ctx.tier;
     vec![arm_with(
         "crash_during_recovery",
-        t.pick(8, 250),
+        t.pick(6, 250),
         8,
         t.pick(8, 60),
         move || (c02::case(t.pick(5, 24)), prop::collection::vec(any::<u16>(), 1..=t.pick(1, 6)), prop::collection::vec(any::<u16>(), t.pick(1, 2))).prop_map(|(hist, picks, nested)| Case { hist, picks, nested }),
@@ -223,7 +223,7 @@ pub fn build(ctx: &Ctx) -> Vec<Box<dyn Arm>> {
     // the listed in-place window
     arm_with(
         "pending_deletes",
-        t.pick(4, 100),
+        t.pick(3, 100),
         8,
         t.pick(6, 40),
         move || {
